@@ -58,3 +58,6 @@ def contract(name, kind):
 
 
 CONTRACTS = {'kcore_bu': contract('kcore_bu', 'bu'), 'kcore_bd': contract('kcore_bd', 'bd'), 'score_wu': contract('score_wu', 's')}
+
+for _k, _b in (('kcore_bu', 'k'), ('kcore_bd', 'k'), ('score_wu', 's')):
+    CONTRACTS[_k].inputs = [('CIJ', 'CIJ0', 'mat', 'n'), (_b, _b, 'int' if _b == 'k' else 'real')]
